@@ -320,7 +320,7 @@ func runPropertyCheck(e *Engine, prop, tier string, seed int, t0 time.Time) int 
 func round3(f float64) float64 { return float64(int64(f*1000+0.5)) / 1000 }
 
 func dedup(s []string) []string {
-	var out []string
+	out := []string{}
 	for i, x := range s {
 		if i == 0 || x != s[i-1] {
 			out = append(out, x)
